@@ -41,8 +41,17 @@ TUnmarshal == Step(Ev.op = "unmarshal" /\ LET r == DecodeBinary(Ev.in) IN
 TDecodeRLP == Step(Ev.op = "decoderlp" /\ LET r == DecodeNetwork(Ev.in) IN
                  Verdict(r) /\ Decoded(r) /\ (r.ok => Ev.net = Ev.in))
 
+(* a list of transactions decoded at once: verdict, the envelope of every element, their  *)
+(* sizes and hashes, and the canonical re-encoding of the whole list                       *)
+TTxList == Step(Ev.op = "txlist" /\ known' = known /\ LET r == DecodeTxList(Ev.in) IN
+                 /\ r.ok = Ev.ok /\ (~r.ok => Ev.cls \in r.c)
+                 /\ (r.ok => /\ Len(r.txs) = Len(Ev.bins)
+                             /\ \A i \in 1..Len(r.txs) : /\ Ev.bins[i] = Marshal(r.txs[i])
+                                                         /\ Ev.sizes[i] = Size(r.txs[i])
+                             /\ Ev.hashok /\ Ev.reenc = Ev.in /\ EncodeTxList(r.txs) = Ev.in))
+
 TraceInit == l = 1 /\ known = 0
-TraceNext == TMarshal \/ TUnmarshal \/ TDecodeRLP
+TraceNext == TMarshal \/ TUnmarshal \/ TDecodeRLP \/ TTxList
 TraceSpec == TraceInit /\ [][TraceNext]_<<l, known>>
 
 TraceAccepted == /\ TLCGet("stats").diameter - 1 = Len(Trace)
